@@ -493,6 +493,8 @@ func (x *X) convert(fr *Frame, st *State, in *ssa.Convert) SV {
 		if b, ok := el.Underlying().(*types.Basic); ok && b.Kind() == types.Uint8 {
 			ln = app(x.enc.isz(), "strlen", s)
 			x.strBytesAxiom(s, inner, x.ic(0))
+			// string([]byte(s)) == s
+			x.vc.assume(mkEq(x.ufS("strofbytes_"+sanitize(string(es)), SStr, inner, x.ic(0), ln), s))
 		} else {
 			ln = x.vc.fresh("nrunes", x.enc.isz())
 			x.vc.assume(mkAnd(x.ile(x.ic(0), ln), x.ile(ln, app(x.enc.isz(), "strlen", s))))
